@@ -6,7 +6,7 @@ From Coq Require Import Lia.
 From RM Require Import C20.Model C20.Proofs C20.Sinks C20.SinksProofs.
 From RM Require Gen.C20DumpSeq C20.DumpSeq Gen.C20Wiring C20.Wiring Gen.C20Cli.
 From RM Require Import C20.ClapSpec C20.Clap C20.ClapProofs C20.ClapSinks C20.ClapSymbols C20.Findings.
-From RM Require Import C20.DumpSpec C20.DumpModel C20.DumpProofs.
+From RM Require Import C20.DumpSpec C20.DumpModel C20.DumpProofs C20.DumpRun.
 From RM Require Gen.C20DumpProg.
 Open Scope Z_scope.
 
@@ -705,6 +705,25 @@ Proof.
   destruct (H4 Hne) as [s [rest' [A [B [C D]]]]]. exists dn, s, rest'. subst rest part. cbn in *. repeat split; assumption.
 Qed.
 Print Assumptions c20_dump_io_error_leaves_prefix.
+
+(* the three models put together for `minidump-stackwalk --dump [--brief] --output-file out <dump>` (any --features / --verbose, any
+   minidump view, any text per printer, any io behaviour of the sink, ANY file system found): the output file holds exactly what the
+   printer calls of the regenerated program wrote before the first failing one - the complete dump when none fails - and the status
+   is 1 exactly for an io error that is not a broken pipe *)
+Theorem c20_dump_run_end_to_end : forall (brief : bool) out feat rec voff view rdr wr cut e (s0 : fsys),
+  e_read e = true -> e_create e out = IoOk ->
+  let secs := sections RM.Gen.C20DumpProg.DUMP_PROG view in
+  let r := if brief then DumpBrief else Dump in
+  let res := write_all rdr wr cut 0 secs in
+  e_write e (File out) r = snd res ->
+  let rd := {| r_bytes := fun _ => dump_text rdr secs; r_prefix := fun _ _ => fst res |} in
+  let f := dump_flags brief (Some out) feat rec voff in
+  fs_after file_create rd s0 (fst (run f e)) out = Some (fst res) /\
+  snd (run f e) = (match snd res with IoErr => 1 | _ => 0 end) /\
+  (exists tail, dump_text rdr secs = fst res ++ tail) /\
+  (snd res = IoOk -> fst res = dump_text rdr secs).
+Proof. exact dump_run_end_to_end. Qed.
+Print Assumptions c20_dump_run_end_to_end.
 
 Example c20_nonvacuous_findings :
   let fb := {| f_human := false; f_json := false; f_cyborg := None; f_dump := false; f_help_md := false;
